@@ -1,39 +1,10 @@
 import MuduoVerif.Proofs.Loop
 /-!
-# `no_lost_wakeup` (C04) and `quit_not_lost` / `quit_in_callback` / `drain_on_exit` (C05): invariants
+# `no_lost_wakeup` (C04): the wake-up invariant
 -/
 set_option linter.unnecessarySimpa false
 namespace MuduoVerif.Loop
 open MuduoVerif.Gen.Loop
-
-/-- some thread other than the loop thread is at micro-position `p` -/
-def inflightF (thr : Nat → FThread) (L : Nat) (p : Pc) : Prop := ∃ j, j ≠ L ∧ (thr j).pc = p
-
-theorem inflightF_new {thr : Nat → FThread} {k : Nat} {t : FThread} {L : Nat} {p : Pc}
-    (hk : k ≠ L) (ht : t.pc = p) : inflightF (fun j => if j = k then t else thr j) L p :=
-  ⟨k, hk, by simp [ht]⟩
-
-theorem inflightF_keep {thr : Nat → FThread} {k : Nat} {t : FThread} {L : Nat} {p : Pc}
-    (h : inflightF thr L p) (hk : (thr k).pc ≠ p) : inflightF (fun j => if j = k then t else thr j) L p := by
-  obtain ⟨j, hj, hp⟩ := h
-  refine ⟨j, hj, ?_⟩
-  have : j ≠ k := by rintro rfl; exact hk hp
-  simp [this, hp]
-
-@[simp] theorem setThr_thr_fun (s : St) (k : Nat) (t : FThread) :
-    (setThr s k t).thr = fun j => if j = k then t else s.thr j := rfl
-
-def needsWake : Phase → Bool
-  | .unborn | .born | .pre | .ready | .entered | .looptest | .polling | .draining => true
-  | _ => false
-
-def taskPhase : Phase → Bool
-  | .unborn | .born | .pre | .dispatch | .draining => true
-  | _ => false
-
-def beforeLoop : Phase → Bool
-  | .unborn | .born | .pre | .ready => true
-  | _ => false
 
 /-- somebody is about to write the eventfd, or has done so and the loop has not read it yet -/
 def Woken (s : St) : Prop := 0 < s.ev ∨ s.lpc = .appended ∨ inflightF s.thr s.L .appended
@@ -91,13 +62,6 @@ theorem stepLoop_wake {s : St} (h : WakeInv s) : WakeInv (stepLoop s) := by
     | exact hr (by simp [*, taskPhase])
     | (refine ⟨?_, ?_, ?_, ?_⟩ <;> simp_all [needsWake, taskPhase, beforeLoop, Woken, busy, St.L]))
 
-theorem inflightF_keep' {thr thr' : Nat → FThread} {k : Nat} {L : Nat} {p : Pc}
-    (h : inflightF thr L p) (hk : (thr k).pc ≠ p) (hthr : ∀ j, j ≠ k → thr' j = thr j) : inflightF thr' L p := by
-  obtain ⟨j, hj, hp⟩ := h
-  refine ⟨j, hj, ?_⟩
-  have : j ≠ k := by rintro rfl; exact hk hp
-  rw [hthr j this]; exact hp
-
 theorem woken_keep {s s' : St} {k : Nat} (h : Woken s) (hk : (s.thr k).pc ≠ .appended)
     (hev : s.ev ≤ s'.ev) (hl : s'.lpc = s.lpc) (hL : s'.elt = s.elt)
     (hthr : ∀ j, j ≠ k → s'.thr j = s.thr j) : Woken s' := by
@@ -124,5 +88,20 @@ theorem stepOther_wake {s : St} (k : Nat) (hk : k ≠ s.L) (h : WakeInv s) : Wak
     | (refine woken_keep (k := k) (h1 ?_ ?_) ?_ ?_ ?_ ?_ ?_ <;>
         (first | (simpa using hn) | (simpa using hp) | (simp [*]; done) | (intro j hj; simp [hj]; done) |
           (simp_all [needsWake]; done)); done))
+
+theorem step_wake {s : St} (k : Nat) (h : WakeInv s) : WakeInv (step s k) := by
+  unfold step; split
+  · exact stepLoop_wake h
+  · rename_i hk; exact stepOther_wake k hk h
+
+theorem run_wake {s : St} (sched : List Nat) (h : WakeInv s) : WakeInv (run s sched) :=
+  run_invariant (fun _ k h => step_wake k h) h sched
+
+theorem init_wake (elt wl : Bool) (tbl) (pre) (progs) : WakeInv (init elt wl tbl pre progs) := by
+  refine ⟨?_, ?_, ?_, ?_⟩
+  · intro _ hp; simp [init] at hp
+  · intro h; cases elt <;> simp [init] at h
+  · intro _; simp [init]
+  · intro h; cases elt <;> simp [init, taskPhase] at h
 
 end MuduoVerif.Loop
